@@ -21,7 +21,7 @@ ASSUMPTIONS = ["bitmap canvases in generated inputs are limited to 512x512 so th
 
 A_LINES, C_LINES = 600, 60000
 B_MEM, M_MEM = 96, 4 << 20
-TIMEOUT_S = 12
+TIMEOUT_S = 25        # CPU seconds of this worker (ITIMER_VIRTUAL): immune to machine load
 FILES = REPO / "tests" / "files"
 
 
@@ -186,6 +186,20 @@ def seeds():
         S["riff"].append((data, {"order": order}))
         S["mmap"].append((ch[1][1], {"order": order}))
         S["locate"].append((c01.rand_prefix(rng, "<") + data, {}))
+    # generated inputs of the other families' harness modules (every header variant, not only what the fixtures contain)
+    try:
+        import c07
+        for ext in (False, True):
+            for bits in (8, 16):
+                for ch in (1, 2, 4):
+                    for fmt in (1, 2):
+                        try:
+                            sp = c07.rand_spec(rng, fmt=fmt, ext=ext, bits=bits, ch=ch)
+                            S["snd"].append((c07.encode(sp), {}))
+                        except Exception:
+                            pass
+    except Exception:
+        pass
     _SEEDS = S
     return S
 
@@ -381,12 +395,12 @@ def measure(name, data, aux):
     _COUNT[0] = 0
     _BYLINE.clear()
     outcome = "ok"
-    old = signal.signal(signal.SIGALRM, _alarm)
+    old = signal.signal(signal.SIGVTALRM, _alarm)
     tracemalloc.start()
     sys.monitoring.restart_events()
     sys.monitoring.set_events(_TOOL, sys.monitoring.events.LINE)
-    signal.setitimer(signal.ITIMER_REAL, TIMEOUT_S)
-    t0 = time.perf_counter()
+    signal.setitimer(signal.ITIMER_VIRTUAL, TIMEOUT_S)
+    t0 = time.process_time()
     try:
         f(data, aux)
     except _Timeout:
@@ -398,12 +412,12 @@ def measure(name, data, aux):
     except Exception:
         outcome = "error"
     finally:
-        signal.setitimer(signal.ITIMER_REAL, 0)
+        signal.setitimer(signal.ITIMER_VIRTUAL, 0)
         sys.monitoring.set_events(_TOOL, 0)
-        dt = time.perf_counter() - t0
+        dt = time.process_time() - t0
         peak = tracemalloc.get_traced_memory()[1]
         tracemalloc.stop()
-        signal.signal(signal.SIGALRM, old)
+        signal.signal(signal.SIGVTALRM, old)
     return dict(outcome=outcome, lines=_COUNT[0], peak=peak, secs=round(dt, 3))
 
 
